@@ -431,5 +431,5 @@ fn check_leaf_rows(c: &c05::Case) -> Verdict {
 
 fn groups(g: &mut Groups) {
     g.prop("twin", 24_000, 1_800_000, || case(), check_case);
-    g.prop("leaf_rows", 40_000, 2_000_000, || rows_case(), check_leaf_rows);
+    g.prop("leaf_rows", 80_000, 2_000_000, || rows_case(), check_leaf_rows);
 }
